@@ -388,6 +388,7 @@ class RealHist:
                 RealHist._store.object_store.add_object(Tree())
             repo = RealHist._store
         self.repo = repo
+        self.nonce = nonce
         tree_id = Tree().id
         sha = [None] * h.n
         objs = []
@@ -521,7 +522,7 @@ def _pair_queries(h: Hist):
             qs.append(("L", c1, (c2,), None))
             if c1 != c2:
                 qs.append(("L", c1, (c2,), h.ts[c1]))
-    if n >= 3:
+    if 3 <= n <= 4:   # c2 sets: exhaustive up to 4 commits (5 and 6: pairs only, sets come from the random streams)
         for c1 in range(n):
             others = [c for c in range(n) if c != c1]
             for pair in itertools.combinations(others, 2):
@@ -591,8 +592,13 @@ def _pool(workers=None):
     return ProcessPoolExecutor(max_workers=n, mp_context=mp.get_context("fork"))
 
 
-def _record_fail(ctx, stream, case, query, got, what, cls):
-    ctx.oracle_fail(stream, {"history": case, "query": query, "got": got}, what, cls)
+def _record_fail(ctx, stream, case, query, got, what, cls, rh=None):
+    c = {"history": case, "query": query, "got": got}
+    if rh is not None:
+        # how to rebuild the very same commits (same SHAs, hence the same tie order): the history in its
+        # original numbering + the nonce that went into the commit messages; `history`/`query` use SHA ranks
+        c["orig"] = {"parents": rh.h.P, "ts": rh.h.ts, "nonce": rh.nonce}
+    ctx.oracle_fail(stream, c, what, cls)
 
 
 def _stream_small(ctx, stream="small.lcas"):
@@ -891,7 +897,7 @@ def _run_repo_cases(ctx, stream, items):
                 ctx.disagree(stream, {"history": rh.hm.case(), "query": qs_}, m, _show_ans(got), "repo-level")
             r = _repo_classify(rh, q, got)
             if r is not None:
-                _record_fail(ctx, stream + "." + q[0], rh.hm.case(), qs_, _show_ans(got), r[0], r[1])
+                _record_fail(ctx, stream + "." + q[0], rh.hm.case(), qs_, _show_ans(got), r[0], r[1], rh=rh)
         if len(ctx.samples) < 4 and rh.hm.n >= 4:
             ctx.sample({"stream": stream, "history": rh.hm.enc(), "queries": [_repo_query_str(q) for q in qs][:4],
                         "model": ms[:4]})
@@ -1168,7 +1174,7 @@ def _stream_git(ctx):
                             ctx.oracle_fail("git.W", {"history": h.case(), "query": qstr, "got": showl(got),
                                                       "git": showl(gitans)}, "date order differs from git rev-list", None)
                     elif r is not None:
-                        _record_fail(ctx, "git.W", h.case(), qstr, _show_ans(got), r[0], r[1])
+                        _record_fail(ctx, "git.W", h.case(), qstr, _show_ans(got), r[0], r[1], rh=rh)
                     continue
                 if gitans != truth:
                     key = f"C git deviates from the graph answer on {k}"
@@ -1179,7 +1185,7 @@ def _stream_git(ctx):
                     if r is None and k == "I":
                         continue
                     what, cls = r if r is not None else (f"dulwich {got} vs git {gitans}", None)
-                    _record_fail(ctx, "git." + k, h.case(), qstr, _show_ans(got), "disagrees with C git: " + what, cls)
+                    _record_fail(ctx, "git." + k, h.case(), qstr, _show_ans(got), "disagrees with C git: " + what, cls, rh=rh)
         finally:
             gh.close()
     for k, v in notes.items():
@@ -1305,7 +1311,7 @@ def search(ctx: core.Ctx):
             got = _repo_eval(rh, q)
             r = _repo_classify(rh, q, got)
             if r:
-                _record_fail(ctx, "search.repo." + q[0], rh.hm.case(), _repo_query_str(q), _show_ans(got), r[0], r[1])
+                _record_fail(ctx, "search.repo." + q[0], rh.hm.case(), _repo_query_str(q), _show_ans(got), r[0], r[1], rh=rh)
         if len(ctx.oracle_failures) > 20:
             return
     # 3. topo reorder / walk on the disagreeing cases themselves
@@ -1357,25 +1363,34 @@ def replay(ctx: core.Ctx, data: dict) -> int:
         else:
             r = classify_ff(h, c1, c2s[0], got if isinstance(got, str) else got == [c1])
     else:
-        # repo level: ids in the stored history are SHA ranks of the commits that were built then; rebuild the
-        # commits (ranks may differ now, so try a few nonces until the rank order is the stored numbering)
+        # repo level: ids in the stored history are SHA ranks of the commits that were built then
         rh = None
-        for nonce in range(2000):
-            cand = RealHist(h, nonce=nonce)
-            if cand.rank == list(range(h.n)):
+        if "orig" in c:
+            o = c["orig"]
+            cand = RealHist(Hist(o["parents"], o["ts"]), nonce=o["nonce"])
+            if [list(p) for p in cand.hm.P] == [list(p) for p in h.P] and list(cand.hm.ts) == list(h.ts):
                 rh = cand
-                break
+                h = rh.hm
+                ident = True
+        if rh is None:
+            ident = False
+            for nonce in range(300):
+                cand = RealHist(h, nonce=nonce)
+                if cand.rank == list(range(h.n)):
+                    rh = cand
+                    break
         if rh is None:
             rh = RealHist(h, nonce=0)
             print("note: could not reproduce the SHA order of the stored case; heap ties may resolve differently")
         parts = q.split(":")
-        f = lambda s: [rh.rank[int(x)] for x in s.split(",")] if s != "-" else []
+        rk = (lambda x: x) if ident else (lambda x: rh.rank[x])
+        f = lambda s: [rk(int(x)) for x in s.split(",")] if s != "-" else []
         if k == "W":
             g = lambda s: None if s == "n" else int(s)
             qq = ("W", {"incl": f(parts[1]), "excl": f(parts[2]), "topo": parts[3] == "1", "rev": parts[4] == "1",
                         "max": g(parts[5]), "since": g(parts[6]), "until": g(parts[7])})
         elif k == "F":
-            qq = ("F", [rh.rank[int(parts[1])], rh.rank[int(parts[2])]])
+            qq = ("F", [rk(int(parts[1])), rk(int(parts[2]))])
         else:
             qq = (k, f(parts[1]))
         got = _repo_eval(rh, qq)
